@@ -79,13 +79,13 @@ class _:
     all_props = ['C01', 'C02', 'C10']
 
     def requires(sign, man, exp, bc, prec, rnd):
-        return (sign == 0 or sign == 1) and man >= 0 and prec >= 1 and (man == 0 or bc == bitlen(man))
+        return (sign == 0 or sign == 1) and man >= 0 and (man == 0 or (prec >= 1 and bc == bitlen(man)))
 
     def ensures_wf(sign, man, exp, bc, prec, rnd, result):
         return WFfin(result) and (man == 0 or result[0] == sign)
 
     def ensures_bits(sign, man, exp, bc, prec, rnd, result):
-        return result[3] <= prec
+        return man == 0 or result[3] <= prec
 
     def ensures_value(sign, man, exp, bc, prec, rnd, result):
         return CRound(result, sign, man, exp, prec, rnd)
@@ -99,21 +99,24 @@ class _:
     """same as _normalize with the added precondition that man is odd or zero"""
     shapes = dict(sign='int', man='int', exp='int', bc='int', prec='int')
     result = 'mpf'
-    props = dict(wf=['C01'], bits=['C10'], value=['C02'])
+    props = dict(wf=['C01'], bits=['C10'], value=['C02'], exact=['C01', 'C02'])
     all_props = ['C01', 'C02', 'C10']
 
     def requires(sign, man, exp, bc, prec, rnd):
-        return ((sign == 0 or sign == 1) and man >= 0 and prec >= 1
-                and (man == 0 or (bc == bitlen(man) and man % 2 == 1)))
+        return ((sign == 0 or sign == 1) and man >= 0
+                and (man == 0 or (prec >= 1 and bc == bitlen(man) and man % 2 == 1)))
 
     def ensures_wf(sign, man, exp, bc, prec, rnd, result):
         return WFfin(result) and (man == 0 or result[0] == sign)
 
     def ensures_bits(sign, man, exp, bc, prec, rnd, result):
-        return result[3] <= prec
+        return man == 0 or result[3] <= prec
 
     def ensures_value(sign, man, exp, bc, prec, rnd, result):
         return CRound(result, sign, man, exp, prec, rnd)
+
+    def ensures_exact(sign, man, exp, bc, prec, rnd, result):
+        return man == 0 or bc > prec or result == (sign, man, exp, bc)
 
     loops = {0: STRIP_LOOP}
     ghost = NORMALIZE_GHOST
@@ -277,3 +280,259 @@ class _:
 
     def ensures_value(s, n, result):
         return (s[1] == 0 and result == s) or (s[1] != 0 and result == (s[0], s[1], s[2] + n, s[3]))
+
+
+# ------------------------------------------------------------------ multiplication
+@contract(M + 'python_mpf_mul')
+class _:
+    shapes = dict(s='mpf', t='mpf', prec='int')
+    result = 'mpf'
+    props = dict(wf=['C01'], bits=['C10'], value=['C02'])
+    all_props = ['C01', 'C02', 'C10']
+
+    def requires(s, t, prec, rnd):
+        return WF(s) and WF(t) and prec >= 0
+
+    def ensures_wf(s, t, prec, rnd, result):
+        return WF(result)
+
+    def ensures_bits(s, t, prec, rnd, result):
+        return prec == 0 or special(result) or result[3] <= prec
+
+    def ensures_value(s, t, prec, rnd, result):
+        return ProdSpec(result, s, t, prec, rnd)
+
+    ghost = {
+        ('man = sman * tman', 0, 'after'): [
+            'lemma_bitlen_mul(sman, tman)', 'lemma_shr_bitlen(man)', 'lemma_odd_mul(sman, tman)',
+            'lemma_mul_pos(sman, tman)'],
+    }
+
+
+@contract(M + 'python_mpf_mul_int')
+class _:
+    shapes = dict(s='mpf', n='int', prec='int')
+    result = 'mpf'
+    props = dict(wf=['C01'], bits=['C10'], value=['C02'])
+    all_props = ['C01', 'C02', 'C10']
+
+    def requires(s, n, prec, rnd):
+        return WF(s) and prec >= 1
+
+    def ensures_wf(s, n, prec, rnd, result):
+        return WF(result)
+
+    def ensures_bits(s, n, prec, rnd, result):
+        return special(result) or result[3] <= prec
+
+    def ensures_value(s, n, prec, rnd, result):
+        return MulIntSpec(result, s, n, prec, rnd)
+
+    ghost = {
+        ('man *= n', 0, 'before'): ['g_m = man'],
+        ('man *= n', 0, 'after'): ['lemma_bitlen_mul(g_m, n)', 'lemma_shr_bitlen(man)',
+                                   'lemma_mul_pos(g_m, n)'],
+    }
+
+
+# ------------------------------------------------------------------ addition
+@contract(M + 'mpf_add')
+class _:
+    shapes = dict(s='mpf', t='mpf', prec='int')
+    enums = dict(_sub=(0, 1))
+    result = 'mpf'
+    props = dict(wf=['C01'], bits=['C10'], value=['C02'])
+    all_props = ['C01', 'C02', 'C10']
+
+    def requires(s, t, prec, rnd, _sub):
+        return WF(s) and WF(t) and prec >= 0
+
+    def ensures_wf(s, t, prec, rnd, _sub, result):
+        return WF(result)
+
+    def ensures_bits(s, t, prec, rnd, _sub, result):
+        return prec == 0 or special(result) or result[3] <= prec
+
+    def ensures_value(s, t, prec, rnd, _sub, result):
+        return SumSpec(result, s, neg_of(t) if _sub else t, prec, rnd)
+
+    # The far-exponent shortcut (|sexp - texp| > 100, operand tops more than prec+4 bits apart)
+    # replaces the small operand by a sticky bit.  Its correctness is the sticky lemma; the
+    # verifier does not decide it, so this sub-case is a bounded stand-in (see bounded.py).
+    gaps = [dict(name='far-exponent sticky shortcut', clauses=['value'],
+                 cond=lambda s, t, prec: FarApart(s, t, prec))]
+
+    ghost = {
+        ('tsign ^= _sub', 0, 'after'): ['split ssign 0 1', 'split tsign 0 1'],
+        ('if offset > 100 and prec:', 0, 'before'): [
+            'lemma_even_mul(sman, pow2(offset))', 'lemma_mul_pos(sman, pow2(offset))'],
+        ('if offset < -100 and prec:', 0, 'before'): [
+            'lemma_even_mul(tman, pow2(-offset))', 'lemma_mul_pos(tman, pow2(-offset))'],
+        ('sman <<= offset', 0, 'before'): [
+            'lemma_even_mul(sman, pow2(offset))', 'lemma_mul_pos(sman, pow2(offset))'],
+        ('tman <<= offset', 0, 'before'): [
+            'lemma_even_mul(tman, pow2(offset))', 'lemma_mul_pos(tman, pow2(offset))'],
+    }
+
+
+@contract(M + 'mpf_sub')
+class _:
+    shapes = dict(s='mpf', t='mpf', prec='int')
+    result = 'mpf'
+    props = dict(wf=['C01'], bits=['C10'], value=['C02'])
+    all_props = ['C01', 'C02', 'C10']
+
+    def requires(s, t, prec, rnd):
+        return WF(s) and WF(t) and prec >= 0
+
+    def ensures_wf(s, t, prec, rnd, result):
+        return WF(result)
+
+    def ensures_bits(s, t, prec, rnd, result):
+        return prec == 0 or special(result) or result[3] <= prec
+
+    def ensures_value(s, t, prec, rnd, result):
+        return SumSpec(result, s, neg_of(t), prec, rnd)
+
+
+# ------------------------------------------------------------------ comparison and hash
+@contract(M + 'mpf_eq')
+class _:
+    shapes = dict(s='mpf', t='mpf')
+    result = 'bool'
+    default_props = ['C05', 'C01']
+    all_props = ['C05', 'C01']
+
+    def requires(s, t):
+        return WF(s) and WF(t)
+
+    def ensures_eq(s, t, result):
+        # canonical values are numerically equal iff their tuples are equal (C01); nan is
+        # unequal to everything
+        return result == (s == t and s != fnan)
+
+
+@contract(M + 'mpf_cmp')
+class _:
+    shapes = dict(s='mpf', t='mpf')
+    result = 'int'
+    default_props = ['C05']
+    all_props = ['C05']
+
+    def requires(s, t):
+        return WF(s) and WF(t)
+
+    def ensures_range(s, t, result):
+        return result == -1 or result == 0 or result == 1
+
+    def ensures_value(s, t, result):
+        return s == fnan or t == fnan or CmpSpec(result, s, t)
+
+    ghost = {
+        ('tsign, tman, texp, tbc = t', 0, 'after'): ['split ssign 0 1', 'split tsign 0 1'],
+        ('a = sbc + sexp', 0, 'before'): [
+            'g_E = min(sexp, texp)',
+            'lemma_pow2_add(sbc, sexp - g_E)', 'lemma_pow2_add(sbc - 1, sexp - g_E)',
+            'lemma_pow2_add(tbc, texp - g_E)', 'lemma_pow2_add(tbc - 1, texp - g_E)',
+            'lemma_mul_lt_r(sman, pow2(sbc), pow2(sexp - g_E))',
+            'lemma_mul_le_r(pow2(sbc - 1), sman, pow2(sexp - g_E))',
+            'lemma_mul_lt_r(tman, pow2(tbc), pow2(texp - g_E))',
+            'lemma_mul_le_r(pow2(tbc - 1), tman, pow2(texp - g_E))',
+            'lemma_odd_pow2_unique(sman, sexp - g_E, tman, texp - g_E)'],
+    }
+
+
+@contract(M + 'mpf_lt')
+class _:
+    shapes = dict(s='mpf', t='mpf')
+    result = 'bool'
+    default_props = ['C05']
+    all_props = ['C05']
+
+    def requires(s, t):
+        return WF(s) and WF(t)
+
+    def ensures_value(s, t, result):
+        return result == (s != fnan and t != fnan and val_lt(s, t))
+
+
+@contract(M + 'mpf_le')
+class _:
+    shapes = dict(s='mpf', t='mpf')
+    result = 'bool'
+    default_props = ['C05']
+    all_props = ['C05']
+
+    def requires(s, t):
+        return WF(s) and WF(t)
+
+    def ensures_value(s, t, result):
+        return result == (s != fnan and t != fnan and not val_lt(t, s))
+
+
+@contract(M + 'mpf_gt')
+class _:
+    shapes = dict(s='mpf', t='mpf')
+    result = 'bool'
+    default_props = ['C05']
+    all_props = ['C05']
+
+    def requires(s, t):
+        return WF(s) and WF(t)
+
+    def ensures_value(s, t, result):
+        return result == (s != fnan and t != fnan and val_lt(t, s))
+
+
+@contract(M + 'mpf_ge')
+class _:
+    shapes = dict(s='mpf', t='mpf')
+    result = 'bool'
+    default_props = ['C05']
+    all_props = ['C05']
+
+    def requires(s, t):
+        return WF(s) and WF(t)
+
+    def ensures_value(s, t, result):
+        return result == (s != fnan and t != fnan and not val_lt(s, t))
+
+
+@contract(M + 'mpf_hash')
+class _:
+    shapes = dict(s='mpf')
+    result = 'int'
+    default_props = ['C05']
+    all_props = ['C05']
+
+    def requires(s):
+        return WF(s)
+
+    def ensures_value(s, result):
+        return HashSpec(result, s)
+
+
+# ------------------------------------------------------------------ division
+@contract(M + 'mpf_div')
+class _:
+    shapes = dict(s='mpf', t='mpf', prec='int')
+    result = 'mpf'
+    props = dict(wf=['C01'], bits=['C10'], value=['C02'])
+    all_props = ['C01', 'C02', 'C10']
+    raises = dict(ZeroDivisionError=lambda t: t == fzero)
+
+    def requires(s, t, prec, rnd):
+        return WF(s) and WF(t) and prec >= 1
+
+    def ensures_wf(s, t, prec, rnd, result):
+        return WF(result)
+
+    def ensures_bits(s, t, prec, rnd, result):
+        return special(result) or result[3] <= prec
+
+    def ensures_value(s, t, prec, rnd, result):
+        return QuotSpec(result, s, t, prec, rnd)
+
+    ghost = {
+        ('tsign, tman, texp, tbc = t', 0, 'after'): ['split ssign 0 1', 'split tsign 0 1'],
+    }
